@@ -15,6 +15,8 @@ const wrPkg = "transport/webrtc"
 func c26(c *an.Check) {
 	// signals are decrypted by the public-key decryption chain: arbitrary payload bytes reach it
 	peerEncryptTotality(c, "webrtc signal decryption chain totality")
+	// ... and a payload decodes to the same signal however often (and with whatever keys) it was tried before
+	decryptInputUntouched(c)
 	p := c.P
 	// ---- ROLE: the offerer predicate is a strict order on (local, remote) in one encoding
 	iso := one(pkgFuncsWhere(p, wrPkg, func(f *ssa.Function) bool {
